@@ -95,18 +95,6 @@ Definition model_expired (s : state) (t c : N) (inflight : bool) (now : Z) : lis
   | None => []
   end.
 
-(* restart: graceful Exit flushes queue ++ in-flight ++ deferred of every non-ephemeral
-   channel to its backend; ephemeral things vanish; consumers are gone; counters restart *)
-Definition restart_chan (ch : chan) : chan :=
-  mkChan (c_id ch) false (c_paused ch)
-         (c_queue ch ++ map i_msg (c_ifl ch) ++ map d_msg (c_dfr ch)) [] [] [] 0 0 0
-         (c_fin ch) (c_emptied ch) (c_lost ch).
-Definition restart_topic (tp : topic) : topic :=
-  mkTopic (t_id tp) false (t_paused tp) (map (fun m => mkMsg (m_id m) (m_att m) 0%Z) (t_queue tp)) 0
-          (map restart_chan (filter (fun ch => negb (c_eph ch)) (t_chans tp))) 0 0 (t_lost tp).
-Definition restart (s : state) : state :=
-  mkState (map restart_topic (filter (fun tp => negb (t_eph tp)) (s_topics s))) [].
-
 Definition meta_agrees (s : state) (m : list (N * list N)) : bool :=
   let want := map (fun tp => (t_id tp, sort_n (map c_id (filter (fun ch => negb (c_eph ch)) (t_chans tp)))))
                   (filter (fun tp => negb (t_eph tp)) (s_topics s)) in
@@ -195,8 +183,9 @@ Record chled := mkCL {
 #[export] Instance eta_cl : Settable _ :=
   settable! mkCL <l_t; l_c; l_eph; l_paused; l_msgs; l_owed; l_fincount; l_emptied; l_clients; l_base>.
 
-Record tled := mkTL { tl_id : N; tl_eph : bool; tl_paused : bool; tl_pubcount : N; tl_pubbytes : N }.
-#[export] Instance eta_tl : Settable _ := settable! mkTL <tl_id; tl_eph; tl_paused; tl_pubcount; tl_pubbytes>.
+Record tled := mkTL { tl_id : N; tl_eph : bool; tl_paused : bool; tl_pubcount : N; tl_pubbytes : N;
+                      tl_pending : list N (* published while the topic was paused, not yet handed to channels *) }.
+#[export] Instance eta_tl : Settable _ := settable! mkTL <tl_id; tl_eph; tl_paused; tl_pubcount; tl_pubbytes; tl_pending>.
 
 Record kled := mkKL { kl_id : N; kl_alive : bool; kl_sub : option (N * N); kl_rdy : Z; kl_closing : bool;
                       kl_fin : N; kl_req : N; kl_msgs : N }.
@@ -237,7 +226,7 @@ Definition outstanding (cl : chled) (k : N) : Z :=
   Z.of_nat (length (filter (fun x => match ms_holder (snd x) with Some h => h =? k | None => false end) (l_msgs cl))).
 
 Definition ens_tl (g : ledger) (t : N) (eph : bool) : ledger :=
-  match find_tl g t with Some _ => g | None => g <| g_tp ::= cons (mkTL t eph false 0 0) |> end.
+  match find_tl g t with Some _ => g | None => g <| g_tp ::= cons (mkTL t eph false 0 0 []) |> end.
 Definition ens_cl (g : ledger) (t c : N) (teph ceph : bool) : ledger :=
   let g := ens_tl g t teph in
   match find_cl g t c with Some _ => g | None => g <| g_ch ::= cons (mkCL t c ceph false [] [] 0 0 [] 0) |> end.
@@ -260,7 +249,8 @@ Definition mon_op (g : ledger) (o : op) (r : resp) : ledger :=
   | OCreateChan t c teph ceph _, ROk => ens_cl g t c teph ceph
   | OPub t teph ids bytes _ _, ROk =>
       let g := ens_tl g t teph in
-      let g := upd_tl g t (fun x => x <| tl_pubcount ::= N.add (N.of_nat (length ids)) |> <| tl_pubbytes ::= N.add bytes |>) in
+      let g := upd_tl g t (fun x => (x <| tl_pubcount ::= N.add (N.of_nat (length ids)) |> <| tl_pubbytes ::= N.add bytes |>)
+                                     <| tl_pending ::= fun l => if tl_paused x then ids ++ l else l |>) in
       (* owed to every channel that exists on the topic now *)
       g <| g_ch ::= map (fun cl => if l_t cl =? t then cl <| l_owed ::= app ids |> else cl) |>
   | OConnect k _, ROk => g <| g_kl ::= cons (mkKL k true None 0%Z false 0 0 0) |>
@@ -393,7 +383,17 @@ Definition mon_op (g : ledger) (o : op) (r : resp) : ledger :=
                end in
       upd_kl g k (fun x => x <| kl_alive := false |>)
   | OPauseChan t c p, ROk => upd_cl g t c (fun cl => cl <| l_paused := p |>)
-  | OPauseTopic t p _, ROk => upd_tl g t (fun x => x <| tl_paused := p |>)
+  | OPauseTopic t p _, ROk => upd_tl g t (fun x => (x <| tl_paused := p |>) <| tl_pending ::= fun l => if p then l else [] |>)
+  | OEmptyTopic t, ROk =>
+      (* an explicit empty of the topic discards what it has not yet handed to its channels *)
+      match find_tl g t with
+      | Some tl =>
+          let g := g <| g_ch ::= map (fun cl => if l_t cl =? t
+                                                then cl <| l_owed ::= filter (fun x => negb (mem_n x (tl_pending tl))) |>
+                                                else cl) |> in
+          upd_tl g t (fun x => x <| tl_pending := [] |>)
+      | None => g
+      end
   | OEmptyChan t c, ROk =>
       (* discarded = everything the channel held at the last snapshot *)
       let n := match g_last g with
